@@ -132,6 +132,9 @@ def _history(payload, sub):
         for ln in spec['links']:
             if ln.startswith('cp:'):
                 links.append(checkpoint(ln[3:]))
+            elif ln.startswith('v'):
+                from dataflows import validate
+                links.append(validate())          # a built-in step with a resource selector of its own (state kept between runs?)
             else:
                 if ln.startswith('m'):
                     links.append(add_field(ln, 'string'))
@@ -185,6 +188,9 @@ def _reference(payload, sub):
         if ln.startswith('m'):
             links.append(add_field(ln, 'string'))
             links.append(_mut(ln))
+        elif ln.startswith('v'):
+            from dataflows import validate
+            links.append(validate())
     rows, dp, _ = Flow(*links).results()
     return {'rows': jsonable(rows), 'dp': jsonable(dp.descriptor)}
 
@@ -204,7 +210,7 @@ class C07(Prop):
                    'same-object configuration uses re-iterable sources and stateless steps, so only the checkpoint machinery carries state between runs']
     REAL_VS_STUB = {'real': ['dataflows Flow / checkpoint / stream / unstream / extended_json', 'the file system'], 'stub': ['process environment: TZ set per run; fork per RUN in the fresh configuration']}
     PROBES = ['negative-utc-offset', 'sub-hour-offset', 'duration-value', 'time-value', 'nested-object', 'high-precision-decimal', 'tz-changed-between-runs', 'same-object-config',
-              'fresh-config', 'delete-middle-checkpoint', 'resume-after-delete-all', 'three-checkpoints', 'empty-resource', 'mutating-step-after-checkpoint', 'year-below-1000', 'zero-column-rows', 'sources-through-load', 'same-object-rerun-of-load']
+              'fresh-config', 'delete-middle-checkpoint', 'resume-after-delete-all', 'three-checkpoints', 'empty-resource', 'mutating-step-after-checkpoint', 'year-below-1000', 'zero-column-rows', 'sources-through-load', 'same-object-rerun-of-load', 'validate-step-in-the-chain']
     TIERS = {'quick': dict(runs=500, wall=100, run_wall=300),
              'thorough': dict(runs=12000, wall=1700, run_wall=600)}
     SHRINK_FROZEN = ('fields',)
@@ -226,6 +232,8 @@ class C07(Prop):
         for i in range(ncp):
             if rng.random() < 0.7:
                 links.append(rng.choice(['s%d', 'm%d'] if all(t['fields'] for t in tabs) else ['s%d']) % i)
+            if rng.random() < 0.2:
+                links.append('v%d' % i)
             links.append('cp:' + 'abc'[i])
         if rng.random() < 0.6:
             links.append(rng.choice(['tail', 'mtail']) if all(t['fields'] for t in tabs) else 'tail')
@@ -264,6 +272,8 @@ class C07(Prop):
         total = [len(t['rows']) for t in spec['tables']]
         self._probes(sc, ctx)
         ops = sc['ops']
+        if any(ln.startswith('v') for ln in spec['links']):
+            ctx.probe('validate-step-in-the-chain')
         if spec.get('src') == 'load':
             ctx.probe('sources-through-load')
             if sc.get('config') == 'same-object':
@@ -318,7 +328,7 @@ class C07(Prop):
                     cut = i
                     break
             exp_src = [0] * len(total) if cut >= 0 else list(total)
-            exp_steps = {ln: (sum(total) if i > cut else 0) for i, ln in enumerate(links) if not ln.startswith('cp:')}
+            exp_steps = {ln: (sum(total) if i > cut else 0) for i, ln in enumerate(links) if not ln.startswith('cp:') and not ln.startswith('v')}
             if out['src'] != exp_src or out['steps'] != exp_steps:
                 under = sum(out['src']) < sum(exp_src) or any(out['steps'][k] < exp_steps[k] for k in exp_steps)
                 ctx.violation('not-recomputed-after-delete' if under else 'upstream-executed', 'counters',
